@@ -103,6 +103,9 @@ fn corpus() -> Vec<Scenario> {
         s("enum", 40, 32, &[], "g<TAB>l<TAB> 1<CR>"),
         s("enum", 40, 32, &[], "e<TAB><CR>"),
         s("enum", 8, 32, &[], "get-<TAB>ad<TAB>"),
+        s("enum", 40, 32, &[], "ge <L><TAB><CR>"),
+        s("enum", 40, 32, &[], "ex  <L><L><TAB>"),
+        s("group", 40, 32, &[], "a<TAB><L><L>x<CR>"),
         s("group", 40, 32, &[OUT1], "hello<CR>"),
         s("group", 40, 32, &[OUT2], "эхо \"привет мир\"<CR>go-to -x 3<CR>"),
         s("group", 40, 32, &[], "go-to -x q<CR>"),
@@ -338,7 +341,7 @@ fn run_suffix<S: CmdSet>(s: &mut Sess<S>, cfg: &Config, suffix: &[Op], typed_lin
 }
 
 /// One fault run. Returns Some(step index) where the failure surfaced (None: during construction).
-fn fault_run<S: CmdSet>(cfg: &Config, steps: &[Step], clean: &Clean, fault: Fault, suffix: &[Op]) -> Result<Option<usize>, Fail> {
+fn fault_run<S: CmdSet>(cfg: &Config, ops: &[Op], steps: &[Step], clean: &Clean, fault: Fault, suffix: &[Op]) -> Result<Option<usize>, Fail> {
     let (s, st) = Sess::<S>::new(cfg, Some(fault));
     let raised0 = st.borrow().raised.clone();
     let mut s = match s {
@@ -402,6 +405,24 @@ fn fault_run<S: CmdSet>(cfg: &Config, steps: &[Step], clean: &Clean, fault: Faul
                     ));
                 }
                 st.borrow_mut().repair();
+                // the rest of the key whose first byte failed (the LF of a CR LF Enter): later input is decoded normally,
+                // so the second half of the pair is still swallowed - no dispatch, no change, no output
+                let op_i = step.op_index();
+                for rest in steps[si + 1..].iter().take_while(|r| r.op_index() == op_i && matches!(ops.get(op_i), Some(Op::Enter))) {
+                    if let Step::Byte(b, _) = rest {
+                        let before = s.editor();
+                        let (calls0, out0) = (s.calls(), s.out_len());
+                        if let Err(e) = s.byte(*b) {
+                            return Err((format!("{}: the remaining byte {:#04x} of the same key is accepted by the repaired sink", what, b), format!("{:?}", e)));
+                        }
+                        if s.calls() != calls0 || s.editor() != before || s.out_len() != out0 {
+                            return Err((
+                                format!("{}: the remaining byte {:#04x} of the same key (second half of the line terminator) does nothing: later input is decoded normally", what, b),
+                                format!("{} new invocation(s), line {:?} -> {:?}, {} bytes written", s.calls() - calls0, lossy(&before.bytes), lossy(&s.editor().bytes), s.out_len() - out0),
+                            ));
+                        }
+                    }
+                }
                 let typed: Vec<Vec<u8>> = clean.submitted[..=si].iter().flatten().cloned().collect();
                 run_suffix(&mut s, cfg, suffix, &typed).map_err(|(e, o)| (format!("{} — {}", what, e), o))?;
                 return Ok(Some(si));
@@ -414,7 +435,7 @@ fn fault_run<S: CmdSet>(cfg: &Config, steps: &[Step], clean: &Clean, fault: Faul
 fn run_one<S: CmdSet>(c: &Case, fault: Fault, suffix: &[Op]) -> Result<(bool, usize), Fail> {
     let steps = steps_of(&c.cfg, &c.ops);
     let clean = clean_run::<S>(&c.cfg, &steps)?;
-    let at = fault_run::<S>(&c.cfg, &steps, &clean, fault, suffix)?;
+    let at = fault_run::<S>(&c.cfg, &c.ops, &steps, &clean, fault, suffix)?;
     // non-trivial: the failure is inside output produced by Enter / write / prompt change / recall / completion
     let nt = match at {
         Some(si) if si < steps.len() => {
@@ -455,8 +476,11 @@ fn run_shard(ctx: &ShardCtx) {
     // corpus x every call index x {once, permanent} x suffixes
     let mut idx = 0u64;
     let sfx = suffixes();
-    'corpus: for (sci, sc) in corpus().iter().enumerate() {
-        let case = scenario_case(sc);
+    // every scenario with Enter sent as CR, as CR LF and as LF CR
+    let scen = corpus();
+    'corpus: for (sci, (sc, es)) in scen.iter().flat_map(|sc| [0u8, 2, 3].into_iter().map(move |es| (sc, es))).enumerate() {
+        let mut case = scenario_case(sc);
+        case.cfg.enter_style = es;
         let n = match vmodel::engine::guarded(|| total_calls(&case)) {
             Ok(Ok(n)) => n,
             Ok(Err((e, o))) => {
@@ -485,7 +509,7 @@ fn run_shard(ctx: &ShardCtx) {
                             if nt {
                                 ctx.class("corpus:fault inside heavy output");
                                 ctx.nontrivial(fingerprint(&("corpus", sci, k, permanent, xi)), || {
-                                    json!({"scenario": sc.text, "set": sc.set, "fault_call": k, "permanent": permanent, "suffix": xi})
+                                    json!({"scenario": sc.text, "set": sc.set, "enter_style": es, "fault_call": k, "permanent": permanent, "suffix": xi})
                                 });
                             }
                         }
